@@ -66,8 +66,10 @@ def main():
         for pid in checks:
             t0 = time.time()
             rc, out = sh([os.path.join(VERIF, 'check'), pid, '--tier', a.tier], VERIF, dict(os.environ, VERIF_REPO=mut, VERIF_NO_EVIDENCE='1'))
-            viol = [ln for ln in out.splitlines() if ln.startswith('VIOLATION')]
-            res['checks'][pid] = {'rc': rc, 'violations': len(viol), 'first': viol[0][-160:] if viol else out[-200:] if rc == 2 else '',
+            lines = out.splitlines()
+            viol = [ln for ln in lines if ln.startswith('VIOLATION')]
+            why = next((ln for ln in lines if ln.startswith('# ')), '')
+            res['checks'][pid] = {'rc': rc, 'violations': len(viol), 'first': (why[:200] + ' | ' + viol[0][-90:]) if viol else out[-200:] if rc == 2 else '',
                                   'wall_s': round(time.time() - t0, 1)}
             print(pid, res['checks'][pid], flush=True)
         res['caught_by_own_check'] = res['checks'][a.prop]['rc'] == 1
